@@ -24,6 +24,7 @@ func runC02(c *Ctx, r *Report) {
 	c02R6(c, r, "C02.R6")
 	c02Router(c, r, "C02.R7")
 	c02R8(c, r, "C02.R8")
+	c02Chain(c, r, "C02.R11")
 	c01R1(c, r, "C02.R10") // every matcher of an AND-set starts at the first byte received so far (per-matcher freeze/unfreeze)
 	c13R6(c, r, "C02.R9") // the hand-off to a wrapped listener is a fallback: it receives the connection with its stream intact
 }
@@ -175,10 +176,30 @@ func c02R1(c *Ctx, r *Report, rule string) {
 
 // chainHandleCalls returns the invocations of Handler.Handle in the compiled route handler that
 // are not on the captured fallback `next`.
-func routerHandleCalls(outer *ssa.Function) (chain, fallback []*ssa.Call) {
+func routerHandleCalls(c *Ctx, outer *ssa.Function) (chain, fallback []*ssa.Call) {
 	for _, ci := range callsIn(outer) {
 		call, ok := ci.(*ssa.Call)
-		if !ok || !isInvoke(ci, "Handle") {
+		if ok && !isInvoke(ci, "Handle") {
+			// a helper of the router's package that runs a handler chain on the connection it is given
+			if g := call.Call.StaticCallee(); g != nil && g.Pkg == outer.Pkg && g.Pkg != nil && len(g.Blocks) > 0 && !strings.Contains(fname(g), "(*Connection)") && !strings.Contains(fname(g), "MatcherSet") {
+				runs := false
+				for h := range c.reachSync(g) {
+					if h.Pkg != outer.Pkg {
+						continue
+					}
+					for _, cj := range callsIn(h) {
+						if _, isCall := cj.(*ssa.Call); isCall && isInvoke(cj, "Handle") {
+							runs = true
+						}
+					}
+				}
+				if runs {
+					chain = append(chain, call)
+				}
+			}
+			continue
+		}
+		if !ok {
 			continue
 		}
 		isNext := false
@@ -209,7 +230,7 @@ func c02R2(c *Ctx, r *Report, rule string) {
 		return
 	}
 	name := fname(outer)
-	chain, _ := routerHandleCalls(outer)
+	chain, _ := routerHandleCalls(c, outer)
 	for i, call := range chain {
 		k := fmt.Sprintf("route-handlers#%d", i+1)
 		var am *ssa.Call
